@@ -405,6 +405,9 @@ func init() {
 		if i >= len(held) {
 			return "none"
 		}
+		if spare := held[i].live[len(held[i].live):cap(held[i].live)]; len(spare) > 0 {
+			scribble(spare) // what an append within capacity would overwrite
+		}
 		if len(held[i].live) == 0 {
 			return "empty"
 		}
